@@ -107,6 +107,8 @@ enum Ev {
     AcceptOk { ep: usize, alpn: Vec<u8> },
     AcceptErr { ep: usize, alpn: Option<Vec<u8>>, seen: Seen },
     AcceptClosed { ep: usize, alpn: Vec<u8>, seen: Seen },
+    /// informational (counted, not judged)
+    Note { what: &'static str },
 }
 
 type Log = Arc<Mutex<Vec<Ev>>>;
@@ -241,6 +243,8 @@ fn alpn_of(i: usize) -> Vec<u8> {
     format!("c42/{i}").into_bytes()
 }
 
+static ZERO_RTT_DIALS: std::sync::atomic::AtomicU64 = std::sync::atomic::AtomicU64::new(0);
+
 #[derive(Clone, Debug)]
 enum DialRes {
     Err(Seen),
@@ -266,7 +270,17 @@ async fn accept_loop(ep: Endpoint, me: usize, log: Log) {
                     return;
                 }
             };
-            match accepting.await {
+            // half of the incoming connections are completed through the 0-RTT / 0.5-RTT accept
+            // path (`Accepting::into_0rtt` + `handshake_completed`); which half is a fixed function
+            // of the attempt's unique protocol name
+            let zero_rtt = first.as_ref().map(|a| a.iter().map(|b| *b as u32).sum::<u32>() % 2 == 0).unwrap_or(false);
+            let accepted = if zero_rtt {
+                log.lock().unwrap().push(Ev::Note { what: "accept-via-0rtt" });
+                accepting.into_0rtt().handshake_completed().await
+            } else {
+                accepting.await
+            };
+            match accepted {
                 Ok(conn) => {
                     let alpn = conn.alpn().to_vec();
                     log.lock().unwrap().push(Ev::AcceptOk { ep: me, alpn: alpn.clone() });
@@ -298,6 +312,18 @@ async fn dial(x: &Endpoint, addr: EndpointAddr, alpn: &[u8], att: &Attempt, extr
         let res: Result<Connection, Seen> = if att.via_opts || !extra.is_empty() {
             let opts = ConnectOptions::new().with_additional_alpns(extra);
             match x.connect_with_opts(addr, alpn, opts).await {
+                // odd nonces try the 0-RTT connect path first (it exists once an earlier
+                // connection to this peer left a session ticket)
+                Ok(c) if nonce % 2 == 1 => match c.into_0rtt() {
+                    Ok(z) => {
+                        ZERO_RTT_DIALS.fetch_add(1, std::sync::atomic::Ordering::Relaxed);
+                        match z.handshake_completed().await {
+                            Ok(iroh::endpoint::ZeroRttStatus::Accepted(c)) | Ok(iroh::endpoint::ZeroRttStatus::Rejected(c)) => Ok(c),
+                            Err(e) => Err(seen_connecting(&e)),
+                        }
+                    }
+                    Err(c) => c.await.map_err(|e| seen_connecting(&e)),
+                },
                 Ok(c) => c.await.map_err(|e| seen_connecting(&e)),
                 Err(e) => Err(seen_opts(&e)),
             }
@@ -608,6 +634,8 @@ async fn run_case(rep: &Report, case: &Case, keys: [iroh::SecretKey; 2], nonce0:
         }
     }
     rep.count("events.hook_invocations", evs.iter().filter(|e| matches!(e, Ev::Hook { .. })).count() as u64);
+    rep.count("paths.dial_via_0rtt", ZERO_RTT_DIALS.swap(0, std::sync::atomic::Ordering::Relaxed));
+    rep.count("paths.accept_via_0rtt", evs.iter().filter(|e| matches!(e, Ev::Note { what: "accept-via-0rtt" })).count() as u64);
     rep.count("events.incoming", evs.iter().filter(|e| matches!(e, Ev::Incoming { .. })).count() as u64);
     rep.count("events.incoming_alpn_unreadable", evs.iter().filter(|e| matches!(e, Ev::Incoming { alpns: None, .. })).count() as u64);
 
